@@ -5,6 +5,8 @@ TECH = "contract-based deductive verification: VCs generated from the real Go fu
 CLAIMED = {
  "C04": ("proof", "cache.LRUCache: Get/Peek/Exist/Set/SetIfAbsent/Delete/Clear/SetCapacity/Length/Size/Capacity/Evictions/Stats and the private updateInPlace/addNew/checkCapacity are proved against an abstract recency-ordered set (container/list ranked-set model): table/list bijection, size == sum of member sizes (SUM with finite-sum lemmas), size <= capacity at every unlock, eviction takes strictly the least recently used members first and nothing when it fits, Get/Set refresh recency, Peek/Exist change nothing; all fields accessed only under the mutex", "4/C04",
          "trusted: container/list ranked-set extern model, finite-sum and finite-cardinality lemmas (mathematical, not machine checked), Value.Size() in [0,2^62), counters below 2^62 (assumed at lock acquisition), capacity >= 0. Not decided yet: Keys/Items order, the *AndGetRemoved variants, cache/tiny.LRUCache and the sharded wrappers (not under contract yet)."),
+ "C05": ("proof", "cache.ttlMemCache: Set/Get/Remove/Clear and set/get/remove/deadline against the abstract view live(k) = present and clock <= deadline: a hit iff live with the stored value, an elapsed key behaves as never set (set-if-absent succeeds, keep-ttl gets a fresh deadline), one-shot reads remove the key, update-ttl/keep-ttl deadlines, table/list bijection, at most `size` keys (size 0 included), eviction of the least recently used member only, for every option combination (option closures abstracted to arbitrary option values)", "4/C05",
+         "trusted: container/list ranked-set model, sync.RWMutex model, clock constant within one operation, option closures arbitrary, ttl and clock below 2^62. Not decided: the redis-backed implementation and its agreement with the memory cache (no Cmdable contract built), remove-after-get at most once under races (follows from the write lock, meta-argument)."),
  "C06": ("proof", "every obligation of HardNode.Generate, MonoNode.Generate, NewNode, NewMonoNode, UnixNanoID/UnixNanoNoLockID.GenIDByTS, figureShift, IDFields and the lemmas compose_mono / fields_of_compose is discharged for all inputs, all clock readings and all six bit layouts (symbolic layout); lock discipline by lock-held obligations + monitor invariant", "4/C06",
          "trusted: time externs (wall clock arbitrary, monotonic clock monotone), sync.Mutex model, signed division by 1000000 axiomatised (monotone), timestamp ceiling as stated precondition, induction over calls as meta-argument. Not decided: termination of MonoNode's spin loop."),
  "C07": ("proof", "IDFields/IDParse split-recombine, id order lemma, TimeIDRange/TimeBetweenID exact interval (min<=id<=max <=> B<=ts<=E for every non-negative id) proved for all inputs and layouts", "4/C07",
@@ -28,7 +30,6 @@ NOT_YET = {
  "C01": "contracts for semap not written yet (needs the container/list ranked-set model); to be claimed when built",
  "C02": "contracts for keylock not written yet",
  "C03": "vendored B-tree is recursive copy-on-write heap code outside govc's subset; wrapper contracts + bounded stand-in not built yet",
- "C05": "TTL cache contracts not built yet",
  "C10": "bytex contracts (bytes.Buffer extern model) not built yet",
  "C11": "tex.Buffer contracts not built yet",
  "C15": "mux worker contracts not built yet",
